@@ -30,14 +30,14 @@ def run(ctx, rep):
         m = cls.methods.get('log_probability_density')
         if m is None:
             continue
-        rets = [n for n in walk_no_nested(m.node) if isinstance(n, ast.Return) and n.value is not None]
-        good = len(rets) == 1 and isinstance(rets[0].value, ast.Call) and prog.resolve(m.module, rets[0].value.func) == 'numpy.log' \
-            and rets[0].value.args and isinstance(rets[0].value.args[0], ast.Call) \
-            and is_self_attr(rets[0].value.args[0].func, m.self_name, 'probability_density') \
-            and rets[0].value.args[0].args and isinstance(rets[0].value.args[0].args[0], ast.Name) \
-            and rets[0].value.args[0].args[0].id == m.params[1]
-        rep.check('D1.log', m, rets[0] if rets else m.node.name, good, 'np.log(self.probability_density(X))',
-                  'log_probability_density is not the logarithm of probability_density of the same points')
+        from ..exprnf import function_nf
+        form = function_nf(prog, m, rename={m.params[1]: 'X', m.self_name: 'self'}, skip_calls=('check_fit',))
+        want = ('ret', ('call', 'log', ('mcall', ('name', 'self'), 'probability_density', ('name', 'X'))))
+        if 'opaque' in repr(form):
+            rep.undecided('D1.log', m, m.node.name, 'the body contains a construct the normal form does not model')
+        else:
+            rep.check('D1.log', m, m.node.name, form == want, 'np.log(self.probability_density(X))',
+                      'log_probability_density is not the logarithm of probability_density of the same points')
     symmetry(ctx, rep, 'D2.sym', 'probability_density')
     row_independence(ctx, rep, 'D3.rows', ['probability_density', 'partial_derivative'])
     # the base-class finite-difference fallback perturbs a copy and is elementwise
